@@ -23,8 +23,30 @@ class Calls(list):
     earlier = frozenset()
 
 
-def provider(rates, calls):
+WRONG = 2.3        # a coefficient asked at other than the documented arguments answers with this multiple of its value
+
+
+def _matches(args, want):
+    import math as _m
+    if want is None:
+        return True
+    if len(args) != len(want):
+        return False
+    for a, w in zip(args, want):
+        if _m.isinf(w):
+            if a != w:
+                return False
+        elif abs(a - w) > 1e-9 * max(abs(w), 1e-300):
+            return False
+    return True
+
+
+def provider(rates, calls, expect=None):
+    """expect(tag) -> the documented evaluation arguments of the coefficient `tag` at the point under test (or None): the
+    mock answers with its number there and with WRONG x its number anywhere else, so that an argument mix-up shows in the
+    emission itself (extra evaluations elsewhere are harmless)"""
     from cherab.core.atomic import AtomicData
+    expect = expect or (lambda tag: None)
     from cherab.core.atomic import rates as R
     from cherab.core.atomic.gaunt import FreeFreeGauntFactor
 
@@ -42,15 +64,20 @@ def provider(rates, calls):
         class C(base):
             def __init__(self): pass
             def evaluate(self, *a):
-                calls.append(("eval", tag, tuple(float(x) for x in a)))
-                return v
+                a = tuple(float(x) for x in a)
+                calls.append(("eval", tag, a))
+                return v if _matches(a, expect(tag)) else WRONG * v
         return C()
 
     class G(FreeFreeGauntFactor):
         def evaluate(self, z, te, wl):
             calls.append(("eval", "gaunt", (float(z), float(te), float(wl))))
             g = rates["gaunt"]
-            return float(g[int(round(z)) - 1]) if isinstance(g, list) else float(g)
+            val = float(g[int(round(z)) - 1]) if isinstance(g, list) else float(g)
+            want = expect("gaunt")          # (T_e, window) of the point under test
+            if want is not None and not (abs(te - want[0]) <= 1e-9 * max(abs(want[0]), 1e-300) and want[1] <= wl <= want[2]):
+                val *= WRONG
+            return val
 
     class A(AtomicData):
         def wavelength(self, ion, charge, transition):
@@ -88,8 +115,9 @@ def provider(rates, calls):
                         super().__init__(m)
                         self.v = v
                     def evaluate(self, e, t, n, z, b):
-                        calls.append(("eval", f"bcx{self.donor_metastable}", (float(e), float(t), float(n), float(z), float(b))))
-                        return self.v
+                        a = (float(e), float(t), float(n), float(z), float(b))
+                        calls.append(("eval", f"bcx{self.donor_metastable}", a))
+                        return self.v if _matches(a, expect("bcx")) else WRONG * self.v
                 out.append(C(m, v * UNIT))
             return out
         def beam_population_rate(self, b, m, p, q):
